@@ -1857,7 +1857,10 @@ class Fxp():
                           np.add: '__radd__', np.subtract: '__rsub__', np.multiply: '__rmul__', np.true_divide: '__rtruediv__',
                           np.floor_divide: '__rfloordiv__', np.mod: '__rmod__'}
             if ufunc in _reflected and len(inputs) == 2 and inputs[1] is self and not isinstance(inputs[0], Fxp) and not kwargs:
-                return getattr(self, _reflected[ufunc])(inputs[0])
+                _arith = _reflected[ufunc] in ('__radd__', '__rsub__', '__rmul__', '__rtruediv__', '__rfloordiv__', '__rmod__')
+                # (a configured array output is the target of numpy functions: those follow the numpy route below)
+                if not _arith or (self.config.array_op_out is None and self.config.array_op_out_like is None and self.config._array_output_type == 'fxp'):
+                    return getattr(self, _reflected[ufunc])(inputs[0])
             _direct = {np.less: '__lt__', np.less_equal: '__le__', np.greater: '__gt__', np.greater_equal: '__ge__', np.equal: '__eq__', np.not_equal: '__ne__'}
             if ufunc in _direct and len(inputs) == 2 and inputs[0] is self and not kwargs:
                 return getattr(self, _direct[ufunc])(inputs[1])
